@@ -39,8 +39,18 @@ def run(ctx):
             sel = T.subst(v, lambda a: const(div) if a == ("param", "divergence") else None)
             okd = sel == atom(("boundmethod", fn))
         ctx.ob("TAB", cname + ".__init__", "divergence %r selects %s" % (div, fn), okd, q.short(v, 120) if v is not None else "")
-        usr = const("<user function>")
-        selu = T.subst(v, lambda a: usr if a == ("param", "divergence") else None) if v is not None else None
+        usr = atom(("sym", "user function"))   # a callable: not a string, not one of the documented names
+        def _usr(a):
+            if a == ("param", "divergence"):
+                return usr
+            if a[0] == "call" and a[1] == "isinstance" and a[2][0] == usr:
+                return T.FALSE if (a[2][1].single_atom() or ("", ""))[1] in ("builtins.str",) else None
+            if a[0] == "in" and a[1] == usr:
+                return T.FALSE
+            if a[0] == "cmp" and a[1] in ("==", "!=") and T.mentions(a[2], lambda z: z == usr.single_atom()):
+                return T.FALSE if a[1] == "==" else T.TRUE   # it is none of the documented names
+            return None
+        selu = T.subst(v, _usr) if v is not None else None
         ctx.ob("TAB", cname + ".__init__", "any other value of divergence is used as the distance function itself", selu == usr, q.short(selu, 80) if selu is not None else "")
         # default divergence of the public class
         import ast as _ast
@@ -112,22 +122,22 @@ def support(ctx, cname):
         ctx.ob("AGREE-support", site, "the edges passed are the ranges collected in this update [%s]" % cname, okl, q.short(bh[0].args[1], 80), bh[0])
     # _build_histograms
     tb = ctx.trace(cname, "_build_histograms")
-    a = tb.retval.single_atom() if tb.retval is not None else None
+    # one histogram per feature, loop or comprehension: what does the returned list hold at position j, and how long is it?
+    hv = q.seq_view(tb, tb.retval) if tb.retval is not None else None
     ok = False
-    if a is not None and a[0] == "comp":
-        elt = a[2][0].single_atom()
-        it = a[3][0].single_atom()
+    if ctx.anchor(HDMQ + "._build_histograms", "the histograms are a list built once per feature [%s]" % cname, hv is not None, q.short(tb.retval, 120) if tb.retval is not None else ""):
+        elt = hv[0].single_atom()
         if elt is not None and elt[0] == "sub" and elt[2] == const(0):
             h = elt[1].single_atom()
             if h is not None and h[0] == "call" and h[1] == "numpy.histogram":
                 kw = dict(h[3])
-                f = atom(("idx", "%s._build_histograms#L1" % HDMQ))
+                f = q.POS
                 rng = kw.get("range")
                 ra = rng.single_atom() if rng is not None else None
                 ok = (kw.get("bins") == A("_bins") and ra is not None and ra[0] == "tuple" and len(ra[1]) == 2
                       and ra[1][0] == q.sub(P("min_values"), f) and ra[1][1] == q.sub(P("max_values"), f)
                       and _col_idx(h[2][0]) == f and T.mentions(h[2][0], lambda z: z == ("param", "dataset"))
-                      and it is not None and it[0] == "call" and it[1] == "range" and tuple(it[2]) == (A("_input_col_dim"),))
+                      and hv[1] == A("_input_col_dim"))
     ctx.ob("FRM", HDMQ + "._build_histograms", "histogram of feature f with bins=_bins on (min[f], max[f]) for every feature [%s]" % cname, ok, q.short(tb.retval, 200))
     # bin count
     want = atom(("call", "int", (atom(("call", "floor", (atom(("call", "sqrt", (A("reference_n"),), ())),), ())),), ()))
@@ -143,8 +153,9 @@ def support(ctx, cname):
                     break
             w = q.replace_term(want, A("reference_n"), rn.value) if rn is not None else want
             ok = e.value == w
-            okn = rn is not None and (rn.value.single_atom() or ("",))[0] == "sub" and rn.value.single_atom()[2] == const(0) and \
-                (rn.value.single_atom()[1].single_atom() or ("", "", ""))[0] == "getattr" and rn.value.single_atom()[1].single_atom()[2] == "shape" and _root_attr(rn.value.single_atom()[1].single_atom()[1]) in ("reference",) or \
+            # the size of the reference: reference.shape[0] or len(reference)
+            rnl = q.len_norm(rn.value).single_atom() if rn is not None else None
+            okn = rnl is not None and rnl[0] == "call" and rnl[1] == "len" and _root_attr(rnl[2][0]) in ("reference",) or \
                 (rn is not None and T.mentions(rn.value, lambda z: z[0] == "getattr" and z[2] == "shape"))
             ctx.ob("FRM", "%s.%s" % (HDMQ, m), "bins = floor(sqrt(size of the reference)) [%s]" % cname, ok and okn, q.short(e.value, 120), e)
 
@@ -195,7 +206,7 @@ def distance(ctx, cname):
     tr = upd(ctx, cname)
     cd = tr.stores("current_distance")
     ctx.anchor(site, "current_distance stored [%s]" % cname, len(cd) == 1, "")
-    dyn = [e for e in tr.calls() if e.callee[0] == "dynamic" and q.stack_has(e, site)]
+    dyn = [e for e in tr.calls() if e.callee[0] == "dynamic" and q.within(e, site, ("_estimate_initial_epsilon", "reset", "set_reference"))]
     ok = len(dyn) == 1
     if ok:
         a0, a1 = dyn[0].args[0].single_atom(), dyn[0].args[1].single_atom()
@@ -499,7 +510,7 @@ def reset_table(ctx, cname):
               [e for e in tr.of("cut") if str(e.callee).endswith(".update")]
         st = tr.stores("reference")
         ref = A("reference")
-        half = atom(("call", "int", (atom(("call", "len", (ref,), ())) / const(2),), ()))
+        half = atom(("floordiv", atom(("call", "len", (ref,), ())), const(2)))   # int(len/2) and len//2 share this normal form
         if db == 1:
             ctx.ob("TAB-reset", site, "detect_batch=1: the reference is split and its second half replayed as the first test batch [%s]" % cname, len(rec) >= 1 and len(st) >= 1, "")
             if st:
